@@ -27,7 +27,7 @@ P = {
          SEQ_NOTE + " RIMT/VIOT handles are opaque (no Debug): their value is observed only where a later operation uses them.", "DESIGN.md section 4 C05"),
  "C06": ("E4", "bounded-exhaustive enumeration of AML term trees built with the real constructors + independent recursive-descent parse",
          "All programs of four families over every exported AML constructor (roots x fillers^slots, every (parent, slot, child) pair, every nesting triple of the 14 length-prefixed kinds, every body size 0..4200 and around 2^20) are built and serialised by the crate and parsed back by a harness-side ACPI 6.5 ch.20 decoder that knows only method arities; the stream must be consumed exactly, every PkgLength object must end where its last child ends, and the parsed tree must equal the tree the specification prescribes for the program.",
-         "All trees of the stated families, not all trees. Children are passed to parents pre-serialised by the crate's own serialiser. The parser accepts a superset grammar (any object where a term is expected).", "DESIGN.md section 4 C06"),
+         "All trees of the stated families, not all trees. A parent receives stand-ins that replay the sink calls its real children made (byte/word/dword/qword/vec), so it sees what it would see from the real child. The parser accepts a superset grammar (any object where a term is expected).", "DESIGN.md section 4 C06"),
  "C07": ("E3", "whole-domain sweep of all 2^28 lengths in both forms on the real encoder + call-site binding",
          "Every length 0..2^28-1 in the self-inclusive and the exclusive form is encoded by the real encoder (cfg hook) and decoded by the specification's rule (value, lead-byte format, shortest width that can include itself; the 4 unrepresentable inclusive lengths must be refused). The exclusive form is swept again through the public Field API and must agree with the hook byte for byte; each of the 15 length-prefixed object kinds is bound to the encoder with every body size 0..4200 and around 2^20.",
          "Trusts that the one-line cfg hook is a pass-through (bound to the shipped entry points by the Field sweep and the call-site binding).", "DESIGN.md section 4 C07"),
@@ -51,7 +51,7 @@ P = {
          "Two values per width; depth-bounded. A write into the Length field is modelled as a plain write.", "DESIGN.md section 4 C13"),
  "C14": ("E2+E4", "exhaustive enumeration of explored objects x sink implementations, stream equality",
          "Every table state of the depth<=3 sequence exploration, long-lane states, every add_structure-able type over 56 argument fillings, and the C06/C10 program roots are serialised twice into Vec and once into a byte-only sink, an all-methods sink, the Checksum sink, u8sum, the Sdt sink and the PackageBuilder sink; every stream must equal the Vec stream, as_bytes() must equal the serialised form and the byte-sum helper the arithmetic sum.",
-         "AML children are pre-serialised, so only the root object's call pattern varies per sink; Sdt-as-sink skipped above 2048 bytes.", "DESIGN.md section 4 C14"),
+         "AML children are stand-ins replaying the real child's sink calls; Sdt-as-sink skipped above 2048 bytes.", "DESIGN.md section 4 C14"),
  "C15": ("E4", "bounded-exhaustive enumeration of paired construction paths, byte equality",
          "Scope::raw vs Scope::new for 6 path shapes x every body size 0..4200 and around 2^20 and every child list <=3; PackageBuilder vs Package for every element count 0..255, all lists <=3 and nested; &str vs String for every length 0..300; usize vs u64 over the structured integer set.",
          "Equality of the two paths only; correctness of the bytes is C06/C07.", "DESIGN.md section 4 C15"),
@@ -67,6 +67,27 @@ P = {
          "DESIGN.md section 4 C17"),
 }
 
+# as-built additions (rounds 8-15 of seeded changes; DESIGN.md section 8)
+ADD = {
+ "C01": " Plus, per table: explicit sweep programs (every size of every variable-size entry over a contiguous range, continuation / identical / overlapping / descending argument chains, strings with blank / NUL heads and tails, foreign handles, setters overwritten with other values), a byte-sum sweep (one argument per entry kind through all 256 low-byte values) and a second DFS over one operation per kind to depth 4..16.",
+ "C02": " The sweep programs, byte-sum sweep and kind-level DFS of C01 are judged here too.",
+ "C03": " The sweep programs, byte-sum sweep and kind-level DFS of C01 are judged here too.",
+ "C04": " The entry layer also uses all-arguments-equal, lower-case-letter and blank fills; the stand-alone structures (PCI-config GAS, typed GenericAddress, HEST error status block and data entry) are compared with their specification layouts; the sweep programs of C01 are judged here too.",
+ "C05": " The sweep programs of C01 (sizes, strings, overwritten next_level, foreign parent) are judged here too.",
+ "C06": " Plus every sequence of <=3 (thorough 4) field entries over named/reserved x 8 widths.",
+ "C07": " Plus every call site with every name form (1, 2, 3, 10 segments, rooted or not) and a directly-written 64-bit child, and the field-entry sequences of C06.",
+ "C08": " Plus every combination of {00,01,80,ff} over the 8 bytes, every (high, low) dword pair over 22 values, and ResourceTemplate children of every total size 0..70000.",
+ "C09": " Plus every string over {name character, dot} up to 14 and over {name character, dot, backslash} up to 10 characters, and well-formed paths with blank / tab / newline / NUL at their edges.",
+ "C11": " Plus the CFMWS closure for every interleave-ways value x arithmetic and the TCPA closure for four address spaces of its address arguments.",
+ "C12": " Plus every HMAT shape of a 34x34 (thorough 64x64) grid and every SLIT size 1..40 (100) and 128..400 with every cell assigned in three orders, and every locality type x data type x transfer size with untouched cells.",
+ "C13": " Plus state-relative writes (Length := current length + k, a copied header), update_checksum, generic write/append of GenericAddress, and lockstep programs on large tables (slices of every size to 1100 and around 4 KiB / 64 KiB, every initial length 36..1100, byte-by-byte growth to 5000 bytes).",
+ "C14": " Plus the stand-alone structures and fills of lower-case letters / blanks in the raw-form comparison.",
+ "C15": " Plus strings with NUL / blank / quote / non-ASCII characters at either end, and PackageBuilder values obtained through Default and reused after core::mem::take.",
+ "C16": " Plus every placement of four dashes among 36 positions, every pair of positions over 6 characters, identifier + suffix / prefix, and lower-case EISA digits (accepted only if they encode the same identifier).",
+ "C17": " Plus slices of 6..300000 bytes in 6 patterns, sub-slices at start offsets 0..16 for every length 0..1100, and runs of 0..300 equal bytes inside slices.",
+ "C18": " Plus limits reached by the sum of two parts (RIMT platform name x mappings, RQSC vendor resource x cache resources) for every residue of the first part.",
+}
+
 NOT_YET = "check not built yet in this revision of /verif (model-checking design in DESIGN.md section 4); listed here so that no unbuilt check is claimed"
 
 def main():
@@ -76,6 +97,7 @@ def main():
     for i in ids:
         if i in P:
             eng, tech, text, note, ref = P[i]
+            text = text + ADD.get(i, "")
             note = note + LEG if i != "C18" else note
             checks.append({
                 "property_id": i,
@@ -103,8 +125,8 @@ def main():
         "engines": [
             {"name": "E1", "path": "/verif/vcheck/src/sr.rs", "serves_properties": ["C05","C11","C12","C13","C17"], "kind_free_text": "stateright explicit-state search (closure or depth-bounded) whose transition function executes the real crate"},
             {"name": "E2", "path": "/verif/vcheck/src/seq.rs", "serves_properties": ["C01","C02","C03","C04","C05","C14"], "kind_free_text": "stateless depth-bounded DFS over all operation sequences plus deviation-bounded long lanes, every prefix observed"},
-            {"name": "E3", "path": "/verif/vcheck/src/props", "serves_properties": ["C07","C08","C09","C16","C17"], "kind_free_text": "whole-domain sweeps (rayon, 16 cores)"},
-            {"name": "E4", "path": "/verif/vcheck/src/amlgen.rs", "serves_properties": ["C06","C10","C15","C04"], "kind_free_text": "bounded-exhaustive term-tree / builder-program generation + independent parse"},
+            {"name": "E3", "path": "/verif/vcheck/src/props", "serves_properties": ["C01","C02","C03","C04","C05","C07","C08","C09","C12","C13","C16","C17","C18"], "kind_free_text": "whole-domain sweeps and explicit sweep programs (contiguous sizes, related arguments), rayon on 16 cores"},
+            {"name": "E4", "path": "/verif/vcheck/src/aml/gen.rs", "serves_properties": ["C06","C10","C15","C04"], "kind_free_text": "bounded-exhaustive term-tree / builder-program generation + independent parse"},
         ],
         "checks": checks,
         "not_applicable": na,
